@@ -640,6 +640,8 @@ class PenlogReader:
                 self.readline()
                 if self.current_priority <= priority:
                     yield self.current_record
+                if self._current_record_index == 0:
+                    break
                 try:
                     self.seek_to_previous_record()
                 except IndexError:
